@@ -154,7 +154,7 @@ fn int_lit() -> Expr {
 /// width, the expected value wrapped in `Some(..)` / `[..]`, `None`, strings, chars and
 /// anonymous records. Each entry was checked to be refused with "mismatched types" by the
 /// unchanged tree at every one of the eight typed positions.
-fn non_unifiable(expected: &Ty, orig: &Expr, m: &mut Mix) -> (Expr, &'static str) {
+fn non_unifiable(expected: &Ty, orig: &Expr, pos: Pos, m: &mut Mix) -> (Expr, &'static str) {
     let mut pal: Vec<(&'static str, Expr)> = Vec::new();
     let lit_int = |t: IntTy, v: i128| Expr::int(t, v);
     let flt = |ty: Ty, text: &str, suffix: bool| Expr::new(ty, EK::Lit(Lit::Float { text: text.to_string(), suffix }));
@@ -167,6 +167,12 @@ fn non_unifiable(expected: &Ty, orig: &Expr, m: &mut Mix) -> (Expr, &'static str
         pal.push(("int-unsuffixed", int_lit()));
         pal.push(("float-unsuffixed", flt(Ty::F64, "7.5", false)));
     }
+    // Literals of another *width* are wrong only where a declaration pins the expected type
+    // (parameter, annotated let, return type). A variable initialised by an un-suffixed literal
+    // (`let cnt = 0;`) has an open numeric type that a later `cnt += 7u32` legitimately fixes,
+    // so at operands, elements, assigned values and fields of generic records the numeric
+    // entries are left out when a number is expected.
+    let pinned = matches!(pos, Pos::Arg | Pos::AnnotatedLet | Pos::Returned) || !expected.is_numeric();
     // a suffixed integer literal of another width / signedness
     let other_int = match expected {
         Ty::Int(IntTy::U8) => IntTy::I64,
@@ -176,15 +182,17 @@ fn non_unifiable(expected: &Ty, orig: &Expr, m: &mut Mix) -> (Expr, &'static str
         Ty::Int(_) => IntTy::I32,
         _ => IntTy::U8,
     };
-    pal.push(("int-suffixed-other-width", lit_int(other_int, 7)));
-    match expected {
-        Ty::F32 => pal.push(("float-suffixed-other-width", flt(Ty::F64, "7.5", true))),
-        Ty::F64 => pal.push(("float-suffixed-other-width", flt(Ty::F32, "7.5", true))),
-        Ty::Int(_) => pal.push(("float-for-int", flt(Ty::F64, "7.5", false))),
-        _ => {}
-    }
-    if expected.is_float() {
-        pal.push(("int-for-float", int_lit()));
+    if pinned {
+        pal.push(("int-suffixed-other-width", lit_int(other_int, 7)));
+        match expected {
+            Ty::F32 => pal.push(("float-suffixed-other-width", flt(Ty::F64, "7.5", true))),
+            Ty::F64 => pal.push(("float-suffixed-other-width", flt(Ty::F32, "7.5", true))),
+            Ty::Int(_) => pal.push(("float-for-int", flt(Ty::F64, "7.5", false))),
+            _ => {}
+        }
+        if expected.is_float() {
+            pal.push(("int-for-float", int_lit()));
+        }
     }
     if *expected != Ty::Str {
         pal.push(("string", Expr::new(Ty::Str, EK::Lit(Lit::Str("s".to_string())))));
@@ -218,10 +226,16 @@ fn non_unifiable(expected: &Ty, orig: &Expr, m: &mut Mix) -> (Expr, &'static str
     if !matches!(expected, Ty::Opt(_)) {
         pal.push(("none", Expr::new(Ty::opt(Ty::Int(IntTy::I32)), EK::Ctor(Ctor::None, vec![]))));
     }
-    // the value itself, wrapped once more: Some(e) / [e] have the types T? / List[T]
+    // the value itself, wrapped once more: Some(e) / [e] have the types T? / List[T]. Not where
+    // an option / a list is expected: a polymorphic `e` (None, [], a literal) then simply takes
+    // the type one level down and `Some(None): T??` is well typed.
     if orig.ty == *expected && !matches!(expected, Ty::Unit) {
-        pal.push(("wrapped-in-some", Expr::new(Ty::opt(expected.clone()), EK::Ctor(Ctor::Some, vec![orig.clone()]))));
-        pal.push(("wrapped-in-list", Expr::new(Ty::list(expected.clone()), EK::ListLit(vec![orig.clone()]))));
+        if !matches!(expected, Ty::Opt(_)) {
+            pal.push(("wrapped-in-some", Expr::new(Ty::opt(expected.clone()), EK::Ctor(Ctor::Some, vec![orig.clone()]))));
+        }
+        if !matches!(expected, Ty::List(_)) {
+            pal.push(("wrapped-in-list", Expr::new(Ty::list(expected.clone()), EK::ListLit(vec![orig.clone()]))));
+        }
     }
     // anonymous records coerce to named records with the same fields: only where no record fits
     if !matches!(expected, Ty::Anon(_) | Ty::Named(..)) {
@@ -785,7 +799,7 @@ impl Walker<'_> {
         if self.kind == wanted && !matches!(e.ty, Ty::Unit) && self.hit() {
             let expected = if pos == Pos::Cond { Ty::Bool } else { e.ty.clone() };
             let mut m = Mix(self.rng_word);
-            let (wrong, name) = non_unifiable(&expected, &e.clone(), &mut m);
+            let (wrong, name) = non_unifiable(&expected, &e.clone(), pos, &mut m);
             self.tags.push(format!("mismatch:{name}"));
             self.tags.push(format!("{}:{name}", self.kind));
             *e = wrong;
@@ -1285,6 +1299,8 @@ impl Walker<'_> {
 fn walker<'a>(prog: &Program, kind: &'a str, target: Option<usize>, word: u64, control: bool) -> Walker<'a> {
     let mut globals: HashSet<String> = prog.consts.iter().map(|c| c.name.clone()).collect();
     globals.extend(prog.fns.iter().map(|f| f.name.clone()));
+    // the registered constants of the harness runtime are visible everywhere as well
+    globals.extend(crate::host::host_consts().into_iter().map(|(n, _, _)| n.to_string()));
     Walker {
         target,
         n: 0,
